@@ -249,6 +249,8 @@ module Z :
 
   val to_nat : Big_int_Z.big_int -> nat
 
+  val to_N : Big_int_Z.big_int -> Big_int_Z.big_int
+
   val of_nat : nat -> Big_int_Z.big_int
 
   val of_N : Big_int_Z.big_int -> Big_int_Z.big_int
@@ -2064,6 +2066,20 @@ val show_res_dict : oval dict res -> string
 
 val run_options : tok list -> string
 
+val utf8_encode1 : Big_int_Z.big_int -> Big_int_Z.big_int list
+
+val bytes_to_string : Big_int_Z.big_int list -> string
+
+val utf8_string : ustr -> string
+
+val assocZ : (Big_int_Z.big_int * 'a1) list -> Big_int_Z.big_int -> 'a1 -> 'a1
+
+val memZ : Big_int_Z.big_int -> Big_int_Z.big_int list -> bool
+
+val to_pcand : profile0 -> Big_int_Z.big_int -> pcand
+
+val to_count_profile : profile0 -> profile
+
 val show_resZ : Big_int_Z.big_int res -> string
 
 val show_resB : bool res -> string
@@ -2118,6 +2134,10 @@ val show_cids : arith -> cand list -> string
 
 val show_outcome : arith -> meth -> outcome -> string
 
+val run_case : count_case -> string
+
 val run_count_case : tok list -> string
+
+val run_e2e : tok list -> string
 
 val run : tok list -> string
